@@ -153,6 +153,7 @@ func ReplayCtl(steps []CtlStep, seed int64, opt CtlOpts) (*CtlResult, error) {
 		return nil, err
 	}
 	w.SameHost = seed%2 == 1 // every stream from one machine, as a host's own curl processes are
+	w.HoldUnlocked = seed%3 == 2
 	keys, variant := ConcreteKeys(rng)
 	c := &ctlRun{w: w, rng: rng, keys: keys, res: &CtlResult{Variant: variant}, ioReq: map[int]int{}}
 	var infra error
@@ -174,6 +175,7 @@ func ReplayCtl(steps []CtlStep, seed int64, opt CtlOpts) (*CtlResult, error) {
 			break
 		}
 	}
+	c.releaseHeld()
 	if infra == nil && len(c.res.Divs) == 0 {
 		c.final(steps)
 	}
@@ -205,9 +207,28 @@ func (c *ctlRun) half(a int) *Half {
 	return c.w.Halves[a]
 }
 
+// releaseHeld lets every attempt held behind its admission go on.
+func (c *ctlRun) releaseHeld() {
+	c.w.mu.Lock()
+	hs := make([]*Half, 0, len(c.w.Halves))
+	for _, h := range c.w.Halves {
+		hs = append(hs, h)
+	}
+	c.w.mu.Unlock()
+	for _, h := range hs {
+		h.ReleaseHold()
+	}
+}
+
 func (c *ctlRun) do(st CtlStep) error {
 	w := c.w
 	a := st.Act
+	if w.HoldUnlocked && a.N != "Shutdown" && a.N != "Admit" && a.N != "ArriveUni" && a.N != "ArriveIO" && a.N != "Hangup" {
+		c.releaseHeld()
+	}
+	if w.HoldUnlocked && a.N == "Shutdown" {
+		defer c.releaseHeld()
+	}
 	switch a.N {
 	case "ArriveUni":
 		h := w.StartUni(a.A, a.D, c.keys[a.K], st.To.Areq[a.A-1], "")
@@ -323,6 +344,9 @@ func (c *ctlRun) do(st CtlStep) error {
 			return nil
 		}
 		c.shut = true
+		if w.HoldUnlocked {
+			time.Sleep(2 * time.Millisecond) // a Do that does not wait has returned by now
+		}
 	case "DoReturns":
 		select {
 		case <-w.DoDone:
